@@ -128,6 +128,39 @@ pub const REPEATS: &[(&str, &[u8], &[u8], &[u8])] = &[
     ("Base64::decode", b"", b"Zm9v", b""),
 ];
 
+pub const NUMBERS: &[&str] = &["0", "1", "2147483648", "4294967296", "1000000000000000", "9223372036854775807", "9223372036854775808", "18446744073709551615", "18446744073709551616", "340282366920938463463374607431768211456", "99999999999999999999999999999999999999999"];
+
+/// maximal runs of ASCII digits: (start, end)
+pub fn digit_runs(seed: &[u8]) -> Vec<(usize, usize)> {
+    let mut v = Vec::new();
+    let mut i = 0;
+    while i < seed.len() {
+        if seed[i].is_ascii_digit() {
+            let st = i;
+            while i < seed.len() && seed[i].is_ascii_digit() {
+                i += 1;
+            }
+            v.push((st, i));
+        } else {
+            i += 1;
+        }
+    }
+    v
+}
+pub fn replace_runs(seed: &[u8], runs: &[(usize, usize)], which: &[usize], with: &[u8]) -> Vec<u8> {
+    let mut out = Vec::new();
+    let mut pos = 0;
+    for (i, (st, en)) in runs.iter().enumerate() {
+        if which.contains(&i) {
+            out.extend_from_slice(&seed[pos..*st]);
+            out.extend_from_slice(with);
+            pos = *en;
+        }
+    }
+    out.extend_from_slice(&seed[pos..]);
+    out
+}
+
 pub const HOSTILE: &[u8] = &[0x00, 0x09, 0x0a, 0x0d, 0x20, 0x22, 0x2c, 0x2d, 0x2e, 0x2f, 0x30, 0x39, 0x3a, 0x3d, 0x5b, 0x5c, 0x5d, 0x7b, 0x7d, 0x80, 0xc3, 0xff];
 
 #[derive(Clone, Debug)]
@@ -215,6 +248,7 @@ pub fn run(ctx: &mut Ctx) {
     ctx.bound("entry_points", json!(ts.iter().map(|t| t.name).collect::<Vec<_>>()));
     ctx.bound("short", json!(format!("every concatenation of <= {} symbols of the entry point's delimiter alphabet (15..18 symbols incl. NUL, a multi-byte character and invalid UTF-8)", if thorough { 4 } else { 3 })));
     ctx.bound("mutation", json!(format!("every single mutation of every seed: truncation at each offset, each byte replaced by each of {} hostile bytes, deletion, duplication{}", HOSTILE.len(), if thorough { "; every pair of replacements on seeds <= 40 bytes" } else { "" })));
+    ctx.bound("numbers", json!({"values": NUMBERS, "positions": "every number of every seed, every pair of numbers (same value), all numbers at once"}));
     ctx.bound("repetitions", json!("2^i copies (i = 0..14, 0..16 in thorough) of a header line / part / array element / key / config line / range spec / path token, per entry point that reads such units"));
     ctx.bound("structure", json!("nesting depth 2^k for k = 0..12 (0..16 in thorough; closed and unclosed) where the format nests; a run of 65536 identical bytes inserted at 3 positions of every seed"));
     for (ti, t) in ts.iter().enumerate() {
@@ -252,6 +286,27 @@ pub fn run(ctx: &mut Ctx) {
                             }
                         }
                     }
+                }
+            }
+        }
+        // every number of every seed (and every pair of numbers, and all of them at once) replaced by
+        // boundary values of the integer types: sizes, offsets and lengths the parser may add,
+        // subtract, multiply or allocate by
+        for seed in t.seeds {
+            let runs = digit_runs(seed);
+            let mut subsets: Vec<Vec<usize>> = (0..runs.len()).map(|i| vec![i]).collect();
+            for a in 0..runs.len() {
+                for b in (a + 1)..runs.len() {
+                    subsets.push(vec![a, b]);
+                }
+            }
+            if runs.len() > 2 {
+                subsets.push((0..runs.len()).collect());
+            }
+            for sub in &subsets {
+                for n in NUMBERS {
+                    let input = replace_runs(seed, &runs, sub, n.as_bytes());
+                    run_one(ctx, t, Case { target: ti, family: "numbers", input, gen: Value::Null });
                 }
             }
         }
